@@ -168,6 +168,39 @@ Definition fexpr_fr (e : fexpr) (w : W) : option (resp T) :=
   | FParallel secs => match make_all secs with Some fs => parallel_fr fs w | None => None end
   end.
 
+(* ------------------------------------------------ nested filter lists *)
+(* CascadeFilter / ParallelFilter are lists whose items may again be filter lists.
+   FilterList.callables keeps every callable item as it is (a nested list is callable), so
+   freq_response recurses: a stage of a cascade that is a parallel bank contributes the SUM of
+   its branches as one factor, and the other way round; nothing is flattened across kinds
+   (same-kind nesting gives the same value as the flat list only because * and + associate). *)
+Inductive ftree :=
+| TLin (b a : list T)
+| TCas (stages : list ftree)
+| TPar (branches : list ftree).
+
+(* every item evaluated without an exception *)
+Fixpoint all_some {A : Type} (l : list (option A)) : option (list A) :=
+  match l with
+  | [] => Some []
+  | None :: _ => None
+  | Some x :: r => match all_some r with Some xs => Some (x :: xs) | None => None end
+  end.
+
+(* freq_response of a (nested) filter; None = an exception anywhere below *)
+Fixpoint tree_fr (t : ftree) (w : W) : option (resp T) :=
+  match t with
+  | TLin b a => option_map (fun f => lf_fr f w) (lf_make b a)
+  | TCas l => match all_some (map (fun s => tree_fr s w) l) with
+              | Some rs => reduce1 resp_mul rs
+              | None => None
+              end
+  | TPar l => match all_some (map (fun s => tree_fr s w) l) with
+              | Some rs => reduce1 resp_add rs
+              | None => None
+              end
+  end.
+
 (* ------------------------------------------------------------------- dft *)
 (* sum(xn * cexp(-1j * n * f) for n, xn in enumerate(blk)) *)
 Definition dft_sum (blk : list T) (f : W) : T :=
